@@ -734,7 +734,11 @@ class DoIPConnection:
         payload = AliveCheckResponse(
             SourceAddress=self.src_addr,
         )
-        await self.write_request_raw(hdr, payload)
+        # Called from the read worker: this must not wait for the connection mutex, which is
+        # held by a blocked read_frame() or by a writer waiting for its ACK; otherwise the read
+        # worker stalls and neither the alive check nor the awaited frame is ever handled.
+        self.writer.write(hdr.pack() + payload.pack())
+        await self.writer.drain()
 
     async def close(self) -> None:
         logger.debug("Closing DoIP connection...")
